@@ -84,6 +84,17 @@ def art_dfs(fens, depth, stack, tag, simulate=None, seed=1, workers=16, timeout=
                     files={"roots.ndjson": roots_ndjson(fens)}, workers=workers, tag=tag, timeout=timeout, args=args)
 
 
+def art_deep(tier):
+    """Generator configuration with undo: walks of up to `plies` moves from rich and sparse roots, then the complete
+    unwinding - histories up to the engine's documented capacity (512 plies) and the undo of every one of them."""
+    fens = root_fens()
+    sp = sparse_fens()
+    pick = [fens[0], fens[1]] + sp[:6] if tier == "quick" else fens[:6] + sp[:26]
+    walks, plies = (8, 505) if tier == "quick" else (64, 505)
+    return vlib.tlc("ChessGame", game_cfg(2 * plies, plies, ["Move", "Undo"], [], walks=walks, walkseed=3000 + SEED),
+                    files={"roots.ndjson": roots_ndjson(pick)}, workers=8, tag="deep", timeout=4 * 3600, heap="12g")
+
+
 def chess_replay(arts, props, perft=0, timeout=3600):
     """Replays chess artefacts (all generated from the same root list) into the engine."""
     run = vlib.scratch("chess")
@@ -191,6 +202,20 @@ RULES = {
 }
 
 
+def deep_replay(ck, prop, tier):
+    """Histories up to the documented capacity: the deep walks (only the moves out, not their unwinding)."""
+    a = art_deep(tier)
+    ck.add_tlc(a)
+    res = chess_replay([a], [prop])
+    ck.add_result(res)
+    for k, v in res["counters"].items():
+        if k.startswith(prop + ".") or k == "nodes":
+            ck.cov["counters"][k] = ck.cov["counters"].get(k, 0) + v
+            if k.startswith(prop + ".") and not k.endswith("nontrivial"):
+                ck.cov["evaluations"] += v
+    ck.cov["counters"]["deep_walk_nodes"] = res["counters"].get("nodes", 0)
+
+
 def std_chess_check(prop, tier, art_names, perft=0, level="model_checking", extra=None):
     ck = Check(prop, tier, level)
     arts = shared(tier)
@@ -220,11 +245,13 @@ def check_C01(tier):
 
 def check_C02(tier):
     ck = std_chess_check("C02", tier, ["tree", "walk"], extra=lambda ck, res: engine_games(ck, "C02", tier, {"successor-position"}))
+    deep_replay(ck, "C02", tier)
     return ck.finish()
 
 
 def check_C04(tier):
     ck = std_chess_check("C04", tier, ["tree", "walk"])
+    deep_replay(ck, "C04", tier)
     ck.assumptions.append("different identities are expected to have different 64-bit keys; an accidental collision "
                           "among ~1e5 positions has probability < 1e-9 and would be reported with both FENs")
     return ck.finish()
@@ -286,7 +313,9 @@ def check_C03(tier):
     for a in arts:
         ck.add_tlc(a)
     cnt = {}
-    for a in arts:   # the two artefacts use different root lists
+    arts.append(art_deep(tier))
+    ck.add_tlc(arts[-1])
+    for a in arts:   # the artefacts use different root lists
         res = chess_replay([a], ["C03"])
         ck.add_result(res)
         for k, v in res["counters"].items():
@@ -295,7 +324,7 @@ def check_C03(tier):
     ck.cov["distinct_nontrivial"] = cnt.get("C03.undo_compared", 0)
     ck.cov["traces_validated_against_impl"] = cnt.get("nodes", 0)
     ck.cov["rule"] = ("behaviours of ChessGame with Move/Undo/NullMove/UndoNull (exhaustive to 4-5 operations on few-piece roots, "
-                      "simulated to 30-60 operations on all roots); every state is replayed on one engine position, compared with the "
+                      "simulated to 30-60 operations on all roots, and walks of up to 505 plies - the documented capacity is 512 - followed by their complete unwinding); every state is replayed on one engine position, compared with the "
                       "spec after each step and with its own snapshot after each undo; non-trivial = states whose last operation is an undo")
     ck.cov["counters"] = cnt
     return ck.finish()
@@ -319,6 +348,12 @@ def check_C10(tier):
         ck.add_result(res)
         for k, v in res["counters"].items():
             cnt[k] = cnt.get(k, 0) + v
+    ad = art_deep(tier)
+    ck.add_tlc(ad)
+    res = chess_replay([ad], ["C10"])
+    ck.add_result(res)
+    for k, v in res["counters"].items():
+        cnt[k] = cnt.get(k, 0) + v
     ck.cov["counters"] = {}
     engine_games(ck, "C10", tier, {"repetition"})
     cnt.update(ck.cov["counters"])
@@ -736,7 +771,8 @@ def check_C06(tier):
     # game trees with empty history: the tree artefact (depth 2 for all roots) and a deeper one for sparse roots
     arts = [(shared(tier)["tree"], [1, 2] if quick else [1, 2, 3])]
     sparse = [f for f in sparse_fens() if int(f.split()[4]) <= 90][:(6 if quick else 16)]
-    arts.append((art_tree(sparse, 3 if quick else 4, [], "mm-sparse", timeout=4 * 3600), [3] if quick else [3, 4]))
+    # depth 4 is the first depth at which a null-window result that is only a bound can be mistaken for a value
+    arts.append((art_tree(sparse, 4, [], "mm-sparse", timeout=4 * 3600), [3, 4]))
     items, jobs = [], []
     drift = {}
     for art, depths in arts:
